@@ -448,8 +448,10 @@ class Ctx:
             cov.update(extra)
         ev = {'property_id': self.pid, 'tier': self.tier, 'seed': self.seed, 'level': level, 'coverage': cov,
               'assumptions': self.assumptions, 'wall_s': round(time.time() - self.t0, 1), 'violations': len(self.violations)}
-        os.makedirs(os.path.join(VERIF, 'evidence'), exist_ok=True)
-        json.dump(ev, open(os.path.join(VERIF, 'evidence', self.pid + '.json'), 'w'), indent=1, default=str)
+        # VERIF_EVIDENCE_DIR: used by tools/seed_matrix.py so that runs on a deliberately broken tree do not replace the evidence
+        evdir = os.environ.get('VERIF_EVIDENCE_DIR') or os.path.join(VERIF, 'evidence')
+        os.makedirs(evdir, exist_ok=True)
+        json.dump(ev, open(os.path.join(evdir, self.pid + '.json'), 'w'), indent=1, default=str)
         for d in self.drift:
             log('spec_drift: %s' % json.dumps(d, default=str)[:600])
         shutil.rmtree(self.dir, ignore_errors=True)
